@@ -154,6 +154,20 @@ impl Ctx {
                     registered_at: self.loc(),
                 }
                 .into(),
+                "routes" => {
+                    // bp.routes(from![<module>]) invoked from the root module of verif_app
+                    let module = op["module"].as_str().expect("module").to_string();
+                    s::RoutesImport {
+                        sources: s::Sources::Some(vec![module]),
+                        relative_to: "verif_app".into(),
+                        created_at: s::CreatedAt {
+                            package_name: "verif_app".into(),
+                            package_version: "0.1.0".into(),
+                        },
+                        registered_at: self.loc(),
+                    }
+                    .into()
+                }
                 "nest" => {
                     let nested_at = self.loc();
                     let path_prefix = op.get("prefix").and_then(|p| p.as_str()).map(|p| s::PathPrefix {
